@@ -3327,6 +3327,8 @@ fn main() {
             }
             db.put(WriteOptions::default(), b"tail".to_vec(), b"t".to_vec()).unwrap();
             keys.push(b"tail".to_vec());
+            // a key of the first log is overwritten in the second one
+            db.put(WriteOptions::default(), b"key0000".to_vec(), b"newer".to_vec()).unwrap();
             println!("wals_at_crash={:?}", v::wal_numbers(&o));
             let image = std::sync::Arc::new(raindb::fs::InMemoryFileSystem::new());
             {
@@ -3351,31 +3353,46 @@ fn main() {
             let mut o2 = o.clone();
             o2.filesystem_provider = image;
             o2.max_memtable_size = 4 * 1024 * 1024;
+            if a.len() > 1 && a[1] == "noreuse" { o2.reuse_log_files = false; }
+            let mut stale = 0;
+            // the reopens run on their own thread: a panic inside DB::open (or a hang while it unwinds) must not block the replay
+            let (tx, rx) = std::sync::mpsc::channel::<()>();
+            let keys2 = keys.clone();
+            std::thread::spawn(move || {
+                let keys = keys2;
             let mut lost = 0;
-            let mut report = |tag: &str, o2: &raindb::DbOptions| {
-                let w = v::wal_numbers(o2);
-                println!("wals_after_{}={:?}", tag, w);
-                println!("tables_after_{}={}", tag, v::table_numbers(o2).len());
-                w
-            };
-            match raindb::DB::open(o2.clone()) {
-                Err(e) => println!("first_reopen=err {:?}", e),
-                Ok(db2) => {
-                    lost += keys.iter().filter(|k| db2.get(ReadOptions::default(), k).is_err()).count();
-                    println!("first_reopen=ok");
+                let mut report = |tag: &str, o2: &raindb::DbOptions| {
+                    let w = v::wal_numbers(o2);
+                    println!("wals_after_{}={:?}", tag, w);
+                    println!("tables_after_{}={}", tag, v::table_numbers(o2).len());
+                    w
+                };
+                match raindb::DB::open(o2.clone()) {
+                    Err(e) => println!("first_reopen=err {:?}", e),
+                    Ok(db2) => {
+                        lost += keys.iter().filter(|k| db2.get(ReadOptions::default(), k).is_err()).count();
+                        if db2.get(ReadOptions::default(), b"key0000").map(|v| v != b"newer".to_vec()).unwrap_or(true) { stale += 1; }
+                        println!("first_reopen=ok");
+                    }
                 }
-            }
-            let w1 = report("first_reopen", &o2);
-            println!("dead_wal_kept={}", w1.len() > 1);
-            match raindb::DB::open(o2.clone()) {
-                Err(e) => println!("second_reopen=err {:?}", e),
-                Ok(db2) => {
-                    lost += keys.iter().filter(|k| db2.get(ReadOptions::default(), k).is_err()).count();
-                    println!("second_reopen=ok");
+                let w1 = report("first_reopen", &o2);
+                println!("dead_wal_kept={}", w1.len() > 1);
+                match raindb::DB::open(o2.clone()) {
+                    Err(e) => println!("second_reopen=err {:?}", e),
+                    Ok(db2) => {
+                        lost += keys.iter().filter(|k| db2.get(ReadOptions::default(), k).is_err()).count();
+                        if db2.get(ReadOptions::default(), b"key0000").map(|v| v != b"newer".to_vec()).unwrap_or(true) { stale += 1; }
+                        println!("second_reopen=ok");
+                    }
                 }
+                report("second_reopen", &o2);
+                println!("lost={}", lost);
+                println!("stale_overwrite={}", stale);
+                let _ = tx.send(());
+            });
+            if rx.recv_timeout(std::time::Duration::from_secs(30)).is_err() {
+                println!("reopen_thread=panicked or stuck");
             }
-            report("second_reopen", &o2);
-            println!("lost={}", lost);
             db.hold_background_for_verif(false);
             db.notify_background_signal_for_verif();
             std::process::exit(0);
